@@ -644,8 +644,9 @@ func (w *vfWorld) deliver(pid int) {
 	if p == nil {
 		return
 	}
-	ok := w.push(1-p.from, p.raw)
+	ok := !w.ep[1-p.from].conn.isClosed()
 	w.tr.emit(map[string]any{"ev": "rx", "to": 1 - p.from, "pid": pid, "t": w.now(), "ok": ok})
+	w.push(1-p.from, p.raw)
 	w.quiesce()
 }
 
@@ -655,8 +656,9 @@ func (w *vfWorld) dup(pid int) {
 	if p == nil {
 		return
 	}
-	ok := w.push(1-p.from, p.raw)
+	ok := !w.ep[1-p.from].conn.isClosed()
 	w.tr.emit(map[string]any{"ev": "rx", "to": 1 - p.from, "pid": pid, "t": w.now(), "ok": ok, "dup": true})
+	w.push(1-p.from, p.raw)
 	w.quiesce()
 }
 
@@ -675,8 +677,9 @@ func (w *vfWorld) inject(to int, raw []byte, class string) {
 	pid := w.nextPid
 	w.mu.Unlock()
 	w.emitPkt("forge", 1-to, pid, raw, map[string]any{"class": class})
-	ok := w.push(to, raw)
+	ok := !w.ep[to].conn.isClosed()
 	w.tr.emit(map[string]any{"ev": "rx", "to": to, "pid": pid, "t": w.now(), "ok": ok, "forged": true})
+	w.push(to, raw)
 	w.quiesce()
 }
 
@@ -797,6 +800,8 @@ func (w *vfWorld) write(ep, sid, n int, ppi uint32) (*vfMsg, error) {
 	s.lock.RLock()
 	unord, rt, rv := s.unordered, s.reliabilityType, s.reliabilityValue
 	s.lock.RUnlock()
+	w.tr.emit(map[string]any{"ev": "wcall", "ep": ep, "sid": sid, "id": m.ID, "len": n, "ppi": int(ppi),
+		"unord": unord && ppi != uint32(PayloadTypeWebRTCDCEP), "rtype": int(rt), "rval": int(rv), "t": w.now(), "ok": true})
 	nw, err := s.WriteSCTP(m.Payload, PayloadProtocolIdentifier(ppi))
 	w.tr.emit(map[string]any{"ev": "write", "ep": ep, "sid": sid, "id": m.ID, "len": n, "ppi": int(ppi), "ok": err == nil,
 		"n": nw, "err": vfErrClass(err), "unord": unord && ppi != uint32(PayloadTypeWebRTCDCEP), "rtype": int(rt), "rval": int(rv), "t": w.now()})
@@ -813,7 +818,8 @@ func (w *vfWorld) writeAsync(ep, sid, n int, ppi uint32) *vfMsg {
 	s.lock.RLock()
 	unord, rt, rv := s.unordered, s.reliabilityType, s.reliabilityValue
 	s.lock.RUnlock()
-	w.tr.emit(map[string]any{"ev": "api", "ep": ep, "op": "write-call", "sid": sid, "id": m.ID, "len": n, "t": w.now()})
+	w.tr.emit(map[string]any{"ev": "wcall", "ep": ep, "sid": sid, "id": m.ID, "len": n, "ppi": int(ppi),
+		"unord": unord && ppi != uint32(PayloadTypeWebRTCDCEP), "rtype": int(rt), "rval": int(rv), "t": w.now(), "ok": true, "async": true})
 	go func() {
 		nw, err := s.WriteSCTP(m.Payload, PayloadProtocolIdentifier(ppi))
 		w.tr.emit(map[string]any{"ev": "write", "ep": ep, "sid": sid, "id": m.ID, "len": n, "ppi": int(ppi), "ok": err == nil,
@@ -918,6 +924,7 @@ func (w *vfWorld) snap() {
 		m := w.project(i)
 		b, _ := json.Marshal(m)
 		if string(b) == e.lastSnap && !w.snapAll {
+			w.tr.emit(map[string]any{"ev": "same", "ep": i, "t": w.now()})
 			continue
 		}
 		e.lastSnap = string(b)
